@@ -203,7 +203,12 @@ def pick_one_per_prefix(sim, seed):
 def pairsetup_family(run, replay=None):
     thorough = run.tier == 'thorough'
     gen_tail = 'INIT GInit\nNEXT GNext\n'
-    if replay:
+    if replay and replay.get('context') == 'batch' and replay.get('batch_file') and os.path.exists(replay['batch_file']):
+        bpath = os.path.join(run.dir, 'beh.ndjson')
+        shutil.copyfile(replay['batch_file'], bpath)
+        behs = read_ndjson(bpath)
+        stats = dict(replay=True, batch=True)
+    elif replay:
         behs = [replay['behaviour']]
         bpath = os.path.join(run.dir, 'beh.ndjson')
         with open(bpath, 'w') as f:
@@ -258,8 +263,14 @@ def pairsetup_family(run, replay=None):
 
     honest = sum(1 for x in lines if x.get('ev') == 'msg' and x['m'].get('t') == 'Kex' and x.get('state') == 6 and x.get('err') == 0 and x.get('m6ok'))
     proofs = sum(1 for x in lines if x.get('holds'))
-    if not replay and (honest == 0 or proofs == 0):
-        raise ToolTrouble('vacuous run: no honest pairing completed (proofs=%d, pairings=%d)' % (proofs, honest))
+    vacuous = not replay and (honest == 0 or proofs == 0)
+
+    def confirm_batch():
+        t3 = os.path.join(run.dir, 'batch-trace.ndjson')
+        run.harness('pairsetup', ['--beh', bpath, '--trace', t3, '--seed', run.seed, '--tier', run.tier])
+        v3, _, _ = run.validate('PairSetupTrace', 'PairSetupTrace.cfg', t3)
+        return v3, read_ndjson(t3)
+
     drift = sum(1 for x in lines if x.get('ev') == 'msg' and x.get('skipped'))
     cov = mc_summary(run)
     cov.update(stats)
@@ -275,7 +286,10 @@ def pairsetup_family(run, replay=None):
     ))
     assumptions = ['the reference controller implements SRP-6a / HKDF / ChaCha20-Poly1305 / Ed25519 as in the HAP specification (it completes honest pairings with hc in this very run)',
                    'one seeded concretisation (setup code, controller identifier, key pair, flipped bit) per abstract word']
-    return finish(run, 'model_checking', {}, behs, lines, viols, cov, assumptions, 'pairsetup', confirm=confirm)
+    rc = finish(run, 'model_checking', {}, behs, lines, viols, cov, assumptions, 'pairsetup', confirm=confirm, confirm_batch=confirm_batch, batch_file=bpath)
+    if rc == 0 and vacuous:
+        raise ToolTrouble('vacuous run: no honest pairing completed (proofs=%d, pairings=%d)' % (proofs, honest))
+    return rc
 
 
 # =====================================================================================================
@@ -818,7 +832,7 @@ def storage_family(run, replay=None):
 def storagecrash_family(run, replay=None):
     def gen(run):
         run.model_check('StorageCrash', 'StorageCrash_MC.cfg', workers=4)
-        scen = run.generate('StorageCrashGen', cfgtext='CONSTANTS\n  Lens = {0, 5, 40, 4096}\n  Protocol = "rename"\nINIT Init\nNEXT Next\nINVARIANT EmitInit\nCONSTRAINT OnlyInit\nCHECK_DEADLOCK FALSE\n')
+        scen = run.generate('StorageCrashGen', cfgtext='CONSTANTS\n  Lens = {0, 5, 40, 4096}\n  Protocol = "rename"\n  Weak = {}\nINIT Init\nNEXT Next\nINVARIANT EmitInit\nCONSTRAINT OnlyInit\nCHECK_DEADLOCK FALSE\n')
         scen = [json.loads(x) for x in sorted(set(json.dumps(s) for s in scen))]
         words = []
         for s in scen:
@@ -833,9 +847,9 @@ def storagecrash_family(run, replay=None):
         return dict(child_processes=len(lines), killed=sum(1 for x in lines if x.get('killed')), crash_points=pts,
                     protocol_indicated_by_crash_points='rename' if any('tmp' in p for p in pts) else 'inplace')
     rc = generic_family(run, replay, hcv='storagecrash', trace_mod='StorageCrashTrace', gen=gen,
-                        rules={'AtomicRule': 'C19', 'Completed': 'C19', 'OthersUntouched': 'C19', 'NoTempListed': 'C19'}, level='fault_enumeration',
+                        rules={'AtomicRule': 'C19', 'Completed': 'C19', 'OthersUntouched': 'C19', 'NoTempListed': 'C19', 'FollowUp': 'C19'}, level='fault_enumeration',
                         assumptions=['a crash is a SIGKILL of the writing process at a crash point between the file-system operations of fileStorage.Set (verif hook); power loss (unsynced directory entries) is out of scope',
-                                     'the parent re-opens the directory with a fresh store and compares byte-for-byte with the old and the new value'],
+                                     'the parent re-opens the directory with a fresh store and compares byte-for-byte with the old and the new value; then a short, a long, an empty and a medium value are written to the same key to the end and each is read back by a fresh store (what a killed write leaves behind must not leak into later values)'],
                         rule_text='every (old value, new value) pair over absent / 0 / 5 / 40 / 4096 bytes (the initial states of StorageCrash.tla) x every crash point the operation passes (counted by a recording run) x {Set, SaveEntity}, plus the construction of a transport (uuid, version, configHash, device entity) on an empty and on a used directory; distinct = (operation, old, new); non-trivial = old and new differ in length',
                         nontrivial=lambda b: b['steps'][0].get('old') != b['steps'][0].get('new'), extra_cov=extra,
                         fpfun=lambda rule, b, line: '%s/%s,old=%s,new=%s,point=%s,key=%s' % (rule, line.get('op'), 'absent' if line.get('old') == 'absent' else 'present', 'x', line.get('point'), line.get('key')))
@@ -963,7 +977,7 @@ def charcell_family(run, replay=None):
     def extra(lines, behs):
         cells = set(x.get('cell') for x in lines)
         return dict(cells=len(cells), library_constructors=len([c for c in cells if not str(c).startswith('synthetic/')]),
-                    updates=sum(1 for x in lines if x.get('a') == 'Update'), typed_gets=sum(1 for x in lines if x.get('a') == 'TypedGet'))
+                    updates=sum(1 for x in lines if x.get('a') == 'Update'), getter_reads=sum(1 for x in lines if x.get('a') == 'GetterRead'), typed_gets=sum(1 for x in lines if x.get('a') == 'TypedGet'))
 
     def fp(rule, b, line):
         perms = line.get('perms', [])
@@ -972,8 +986,8 @@ def charcell_family(run, replay=None):
                           assumptions=['constructors are found by scanning /repo/characteristic at build time (zero-argument New* functions); synthetic cells cover every permission set for every format class',
                                        'each JSON value class is concretised by a few representative values placed around the cell\'s declared bounds; remote values look like decoded JSON (float64 numbers)',
                                        'the format-range rule for cells WITHOUT declared bounds (e.g. a negative number in a uint8 cell) is not part of the verdict: the property speaks of the declared minimum and maximum'],
-                          rule_text='every update word over 15 JSON value classes x {local, remote} plus typed getter (all words of length 1 on every cell; length 2 on a seeded twelfth of the cells in quick, on all cells in thorough; sampled length 3 in thorough; attack words per named guard) applied to every characteristic constructor of the library and to synthetic cells; distinct = abstract word; non-trivial = contains an update',
-                          nontrivial=lambda b: any(s.get('a') == 'Update' for s in b['steps']), extra_cov=extra, fpfun=fp)
+                          rule_text='every update word over 15 JSON value classes x {local, remote} x {update, value supplied by an installed getter and stored on a read} plus typed getter (all words of length 1 on every cell; length 2 on a seeded twelfth of the cells in quick, on all cells in thorough; sampled length 3 in thorough; attack words per named guard) applied to every characteristic constructor of the library and to synthetic cells; distinct = abstract word; non-trivial = contains an update',
+                          nontrivial=lambda b: any(s.get('a') in ('Update', 'GetterRead') for s in b['steps']), extra_cov=extra, fpfun=fp)
 
 
 REGISTRY['C12'] = charcell_family
